@@ -333,6 +333,38 @@ theorem C19_cooc_invariance_on_data (m : Nat) (im : Img Int) (d : List Int)
   exact ⟨fun p hp => getD_reverse_img im hsz p hp, h1, fun p hp => swapImg_getD im p hp, h2,
     by rw [h1], by rw [h2]⟩
 
+/-- **C19-T6 (Zernike: intensity scaling, on the full model).** For the same generic model `zernikeZ` / `zernikeAbs` of
+`zernike_moments` as in `C19_zernike_rot90` (the one the driver runs at `Float`), over any ordered field and for arbitrary
+`sqrt`, `pow`, `eps`, `π`: multiplying every pixel by `s > 0` changes no `z_nl` (the selection `P > 0` is unchanged and the
+weights `P[k]/ΣP[k]` are scale-free), hence not the returned vector. -/
+theorem C19_zernike_scale_full {α : Type} [Field α] [LinearOrder α] [IsStrictOrderedRing α]
+    (sqrt : α → α) (pow : α → ℕ → α) (eps pi : α) (R C : ℕ) (im : ℕ → ℕ → α) (c0 c1 radius s : α) (hs : 0 < s) :
+    (∀ n l, zernikeZ 0 1 Nat.cast sqrt pow eps pi R C (fun y x => s * im y x) c0 c1 radius n l =
+      zernikeZ 0 1 Nat.cast sqrt pow eps pi R C im c0 c1 radius n l) ∧
+    (∀ degree, zernikeAbs 0 1 Nat.cast sqrt pow eps pi R C (fun y x => s * im y x) c0 c1 radius degree =
+      zernikeAbs 0 1 Nat.cast sqrt pow eps pi R C im c0 c1 radius degree) := by
+  refine ⟨fun n l => zernikeZ_scale sqrt pow eps pi R C im c0 c1 radius s hs n l, fun degree => ?_⟩
+  unfold zernikeAbs
+  refine List.map_congr_left fun nl _ => ?_
+  rw [zernikeZ_scale sqrt pow eps pi R C im c0 c1 radius s hs]
+
+/-- **C19-T6 (Zernike: rotation by 180°).** Two quarter turns: the image `im[R−1−i][C−1−j]` with centre
+`(R−1−c0, C−1−c1)` has `z_nl = i^l · i^l · z_nl(im)`, the same `|z_nl|²` and the same returned vector (a third
+application of `C19_zernike_rot90` gives 270°). -/
+theorem C19_zernike_rot180 {α : Type} [Field α] [LinearOrder α] (sqrt : α → α) (pow : α → ℕ → α) (eps pi : α)
+    (R C : ℕ) (im : ℕ → ℕ → α) (c0 c1 radius : α) :
+    let rot := fun (i j : ℕ) => im (R - 1 - i) (C - 1 - j)
+    (∀ n l, zernikeZ 0 1 Nat.cast sqrt pow eps pi R C rot ((R : α) - 1 - c0) ((C : α) - 1 - c1) radius n l =
+      cxMul (cxPow 0 1 (0, 1) l) (cxMul (cxPow 0 1 (0, 1) l)
+        (zernikeZ 0 1 Nat.cast sqrt pow eps pi R C im c0 c1 radius n l))) ∧
+    (∀ degree, zernikeAbs 0 1 Nat.cast sqrt pow eps pi R C rot ((R : α) - 1 - c0) ((C : α) - 1 - c1) radius degree =
+      zernikeAbs 0 1 Nat.cast sqrt pow eps pi R C im c0 c1 radius degree) := by
+  intro rot
+  refine ⟨fun n l => zernikeZ_rot180 sqrt pow eps pi R C im c0 c1 radius n l, fun degree => ?_⟩
+  unfold zernikeAbs
+  refine List.map_congr_left fun nl _ => ?_
+  rw [zernikeZ_rot180, cxNormSq_cxMul, cxNormSq_cxMul, cxNormSq_pow_i, one_mul, one_mul]
+
 /-! non-vacuity -/
 example : coocCount [2, 3] (fun p => ([0, 1, 1, 1, 0, 1].getD (ravelI [2, 3] p) 0)) [0, 1] 1 1 = 1 ∧
     coocSym [2, 3] (fun p => ([0, 1, 1, 1, 0, 1].getD (ravelI [2, 3] p) 0)) [0, 1] 0 1 = 3 := by decide
@@ -371,4 +403,11 @@ example :
     symFold 3 (coocModel 3 im [0, 1]) = #[0, 1, 0, 1, 2, 2, 0, 2, 0] ∧
     (swapImg im).data = #[0, 2, 1, 1, 2, 1] ∧
     symFold 3 (coocModel 3 (swapImg im) [1, 0]) = #[0, 1, 0, 1, 2, 2, 0, 2, 0] := by
+  decide +kernel
+example :
+    let im : Nat → Nat → Rat := fun y x => ([1, 2, 0, 3, 1, 1] : List Rat).getD (y * 3 + x) 0
+    zernikeZ (0 : Rat) 1 Nat.cast (fun x => x) (fun d k => d ^ k) (1 / 1000000000) 3 2 3 (fun y x => 7 * im y x)
+      (1 / 2) 1 2 1 1 = (-1 / 8, -1 / 24) ∧
+    zernikeZ (0 : Rat) 1 Nat.cast (fun x => x) (fun d k => d ^ k) (1 / 1000000000) 3 2 3
+      (fun i j => im (2 - 1 - i) (3 - 1 - j)) (2 - 1 - 1 / 2) (3 - 1 - 1) 2 1 1 = (1 / 8, 1 / 24) := by
   decide +kernel
